@@ -118,9 +118,15 @@ KF_C17_first_run_side_effects(G) ==
         LET sd == Fin(G, a).stale_min_depth IN
         /\ (sd % 1000) >= 2
         /\ \/ (sd % 1000) < 99 \/ sd >= 1000
-           \* ... or a context that only the superseded execution published is still recorded
+           \* ... or a context of the superseded execution is still recorded (more copies of it than any clean run has)
            \/ \E i \in 1..Len(Fin(G, a).pubs) : \A b \in Members(G, "clean") :
-                 \A j \in 1..Len(Fin(G, b).pubs) : Fin(G, b).pubs[j] # Fin(G, a).pubs[i]
+                 Cardinality({j \in 1..Len(Fin(G, a).pubs) : Fin(G, a).pubs[j] = Fin(G, a).pubs[i]})
+                    > Cardinality({j \in 1..Len(Fin(G, b).pubs) : Fin(G, b).pubs[j] = Fin(G, a).pubs[i]})
+           \* ... or a join it had staged, partially satisfied and now stale, fails the rerun as unreachable
+           \/ /\ Fin(G, a).wf = "failed"
+              /\ \E i \in 1..Len(Fin(G, a).errs) :
+                    /\ Fin(G, a).errs[i].cls = "unreachable_join"
+                    /\ \A b \in Members(G, "clean") : \A j \in 1..Len(Fin(G, b).errs) : Fin(G, b).errs[j] # Fin(G, a).errs[i]
 
 (* S20: the value of an output variable that concurrent branches write is taken from the terminal record *)
 (* that was created (started) last, not from the one that completed last; a pause delays the start of a   *)
@@ -137,12 +143,25 @@ KF_C09_concurrent_output_by_start_order(G) ==
               (o \in DOMAIN Fin(G, p).out /\ Fin(G, p).out[o] # Fin(G, t).out[o]) =>
                  DepVar(G.def.output[k][2]) \cap Tainted(G.def) # {}
 
+(* S20 after a rerun: the re-executed task's record is created last, so for an output variable written by  *)
+(* concurrent branches the rerun and the clean run - same status - may disagree on exactly such outputs   *)
+KF_C17_concurrent_output_by_start_order(G) ==
+  /\ G.kind = "rerun" /\ ~ControlTainted(G.def)
+  /\ \A a \in Members(G, "rerun") : \E b \in Members(G, "clean") :
+        /\ Fin(G, a).wf = Fin(G, b).wf
+        /\ DOMAIN Fin(G, a).out = DOMAIN Fin(G, b).out
+        /\ \A k \in 1..Len(G.def.output) :
+              LET o == G.def.output[k][1] IN
+              (o \in DOMAIN Fin(G, a).out /\ Fin(G, a).out[o] # Fin(G, b).out[o]) =>
+                 DepVar(G.def.output[k][2]) \cap Tainted(G.def) # {}
+
 GroupSignatures(G) ==
   (IF G.kind = "inspect" /\ G.expect.cat = "context" /\ G.expect.pos \in {"rwhen", "rcount", "rdelay"}
    THEN {"KF_C15_retry_context_unchecked"} ELSE {}) \cup
   (IF G.kind = "order" /\ KF_C07_late_arrival_after_fire(G) THEN {"KF_C07_late_arrival_after_fire"} ELSE {}) \cup
   (IF G.kind = "pause" /\ KF_C07_late_arrival_pause(G) THEN {"KF_C07_late_arrival_after_fire"} ELSE {}) \cup
-  (IF KF_C09_concurrent_output_by_start_order(G) THEN {"KF_C09_concurrent_output_by_start_order"} ELSE {}) \cup
+  (IF KF_C09_concurrent_output_by_start_order(G) \/ KF_C17_concurrent_output_by_start_order(G)
+   THEN {"KF_C09_concurrent_output_by_start_order"} ELSE {}) \cup
   (IF KF_C17_first_run_side_effects(G) THEN {"KF_C17_first_run_side_effects"} ELSE {}) \cup
   (IF KF_C17_partial_rerun_succeeds(G) THEN {"KF_C17_partial_rerun_succeeds"} ELSE {}) \cup
   (IF G.kind = "rerun" /\ KF_C07_late_arrival_pause(G) THEN {"KF_C07_late_arrival_after_fire"} ELSE {}) \cup
